@@ -205,6 +205,14 @@ func (rb *Rebalancer) UpsertServer(u *url.URL, options ...ServerOption) error {
 	defer rb.mtx.Unlock()
 
 	if s, i := rb.findServer(u); i != -1 {
+		// A refused option must leave everything as it was: try the options on a scratch server
+		// before the balancer is touched.
+		scratch := &server{}
+		for _, o := range options {
+			if err := o(scratch); err != nil {
+				return err
+			}
+		}
 		// The balancer may currently hold a weight adjusted by the rebalancer. Put the configured
 		// weight back first, so that a call without Weight option does not adopt the adjusted one.
 		_ = rb.next.UpsertServer(u, Weight(s.origWeight))
